@@ -81,6 +81,10 @@ pub fn run(ctx: &Ctx, rep: &mut Report) {
                     rep.count("advance-ledger");
                 }
             }
+            if rng.chance(1, 25) && u.upgrade_and_migrate(&ops_c).is_ok() {
+                rep.step("the operators contract is upgraded to the same code and migrated".into());
+                rep.count("upgrade-and-migrate");
+            }
             let choice = rng.weighted(&[3, 3, 1, 8]);
             let ci = rng.usize(cands.len());
             let cand = cands[ci].clone();
